@@ -139,7 +139,7 @@ f_replace_program (int num_arg, int instruction)
   name = (char *) DMALLOC (name_len + 3, TAG_TEMPORARY, "replace_program");
   xname = name;
   strcpy (name, sp->u.string);
-  if (name[name_len - 2] != '.' || name[name_len - 1] != 'c')
+  if (name_len < 2 || name[name_len - 2] != '.' || name[name_len - 1] != 'c')
     strcat (name, ".c");
   if (*name == '/')
     name++;
